@@ -12,7 +12,7 @@ RUN, EQB = "run_case", "out_eqb"
 N = {"quick": 500, "thorough": 5000}
 RULE = ("random models (1-5 variables, planted ties through small integer coefficients, with/without offset, constant and "
         "empty models) given as dict, Matrix object or labelled object (also with stale variables) to the four solve_* "
-        "functions and the solve_bruteforce methods, all_solutions both ways, validity predicates from a menu (all, none, "
+        "functions and the solve_bruteforce methods, all_solutions both ways, validity predicates (answering with bool, int, None or numpy.bool_) from a menu (all, none, "
         "parity, cardinality bounds); non-trivial = at least two variables and a non-constant term; distinct by JSON")
 THEOREMS = "C09_min C09_all C09_none C09_constant C09_vars C09_enumeration"
 MODELLED = ("the order in which a plain dict's or Matrix model's variables are enumerated (Python set iteration) only decides "
@@ -28,7 +28,25 @@ PRED = {
 }
 
 
+def wrap_ret(pred, ret):
+    """the predicate's answer in the shapes user code produces: a bool, an int from arithmetic, None for "no", numpy.bool_"""
+    if ret == "int":
+        return lambda x: 1 if pred(x) else 0
+    if ret == "none":
+        return lambda x: True if pred(x) else None
+    if ret == "npbool":
+        import numpy
+        return lambda x: numpy.bool_(pred(x))
+    return pred
+
+
 def gen(rng, i, tier):
+    c = gen_(rng, i, tier)
+    c["ret"] = rng.choice(["bool", "bool", "int", "none", "npbool"])
+    return c
+
+
+def gen_(rng, i, tier):
     fn = rng.choice(FNS)
     spin = fn in ("puso", "quso")
     quad = fn in ("qubo", "quso")
@@ -84,7 +102,7 @@ def run_impl(case):
     import qubovert as qv
     D = build(case)
     spin = case["fn"] in ("puso", "quso")
-    valid = PRED[case["pred"]](spin, case["k"])
+    valid = wrap_ret(PRED[case["pred"]](spin, case["k"]), case.get("ret", "bool"))
     before = (type(D).__name__, dict(D), C.snapshot(D)[3] if isinstance(D, dict) and type(D) is not dict else None)
     if case["form"] == "method":
         sols = D.solve_bruteforce(case["all"])
